@@ -189,3 +189,44 @@ void harness_batch_garbage(void)
 	(void)before;
 	WITNESS_END();
 }
+
+/* ================================================================== batches of other shapes (-DBATCHCASE): 1: a notification, a request and a failing request;
+ * 2: a batch of one; 3: a failing request first - the later members are still processed */
+#ifndef BATCHCASE
+#define BATCHCASE 1
+#endif
+void harness_batch_shapes(void)
+{
+	__CPROVER_assume(element_hashtable_create() == 0);
+	mkpeer(&A, true);
+	int v = (int)nd_range(0, 999), w = (int)nd_range(0, 999);
+	scn_build_begin();
+	cJSON *add = mkreq("add", 1, path_params("a", 5));
+	cJSON *batch = cJSON_CreateArray();
+#if BATCHCASE == 1
+	cJSON_AddItemToArray(batch, mkreq_id("change", 0, path_params("a", v)));         /* notification: takes effect, no response */
+	cJSON_AddItemToArray(batch, mkreq("change", 2, path_params("a", w)));
+	cJSON_AddItemToArray(batch, mkreq("change", 3, path_params("zz", 1)));           /* fails */
+#elif BATCHCASE == 2
+	cJSON_AddItemToArray(batch, mkreq("change", 2, path_params("a", w)));
+#else
+	cJSON_AddItemToArray(batch, mkreq("change", 3, path_params("zz", 1)));           /* fails */
+	cJSON_AddItemToArray(batch, mkreq("change", 2, path_params("a", w)));
+#endif
+	scn_build_end();
+	__CPROVER_assume(dispatch(&A, add) == 0);
+	reset_log();
+	int r = dispatch(&A, batch);
+	CHECK(r == 0, "C02.batch_keeps_connection");
+	struct element *e = element_table_get("a");
+	CHECK(e && e->value->valueint == w, "C02.batch_effects_applied_in_order");
+#if BATCHCASE == 1
+	CHECK(nlog == 2 && LOG[0].id_int == 2 && LOG[0].has_result && LOG[1].id_int == 3 && LOG[1].is_error, "C02.batch_one_response_per_member_with_id_in_order");
+#elif BATCHCASE == 2
+	CHECK(nlog == 1 && LOG[0].id_int == 2 && LOG[0].has_result, "C02.batch_one_response_per_member_with_id_in_order");
+#else
+	CHECK(nlog == 2 && LOG[0].id_int == 3 && LOG[0].is_error && LOG[1].id_int == 2 && LOG[1].has_result, "C02.batch_one_response_per_member_with_id_in_order");
+#endif
+	(void)v;
+	WITNESS_END();
+}
